@@ -40,6 +40,9 @@ DEFAULTS = {
 }
 _LOGGER = logging.getLogger("fuzzylite")
 _LOGGER.setLevel(logging.ERROR)
+# the library calls logging.basicConfig() at import: keep its debug mode (used as a fault-free flavour) off the console
+_LOGGER.propagate = False
+_LOGGER.addHandler(logging.NullHandler())
 _FM = fl.settings.factory_manager  # touch once: laziness must not blur identity later
 
 
